@@ -1197,6 +1197,82 @@ fn mode_compose(r: &mut Runner) {
         let _ = await_no_library_thread();
         set_current(None);
     }
+    // a queuing sink that is dropped without ever having been given a metric, around a wrapped sink whose destructor
+    // panics or blocks: releasing the wrapped sink is the background thread's business - the caller's drop returns at
+    // once and does not unwind, used queue or not
+    for (variant, never_used) in [(0u8, true), (1, true), (0, false), (1, false)] {
+        if SPIN_SEEN.load(std::sync::atomic::Ordering::SeqCst) {
+            return;
+        }
+        struct NastyDrop {
+            inner: GatedSink,
+            blocks: bool,
+            release: Arc<(Mutex<bool>, std::sync::Condvar)>,
+            on_harness_thread: Arc<std::sync::atomic::AtomicBool>,
+            dropped: Arc<std::sync::atomic::AtomicBool>,
+        }
+        impl cadence::MetricSink for NastyDrop {
+            fn emit(&self, m: &str) -> std::io::Result<usize> {
+                self.inner.emit(m)
+            }
+        }
+        impl Drop for NastyDrop {
+            fn drop(&mut self) {
+                if procmon::is_harness_tid(procmon::gettid()) {
+                    self.on_harness_thread.store(true, std::sync::atomic::Ordering::SeqCst);
+                }
+                self.dropped.store(true, std::sync::atomic::Ordering::SeqCst);
+                if self.blocks {
+                    let (m, cv) = &*self.release;
+                    let mut g = m.lock().unwrap_or_else(|e| e.into_inner());
+                    while !*g {
+                        g = cv.wait(g).unwrap_or_else(|e| e.into_inner());
+                    }
+                } else {
+                    panic!("scripted-panic: the wrapped sink's destructor");
+                }
+            }
+        }
+        let sh = Shared::new(false);
+        set_current(Some(sh.clone()));
+        let release = Arc::new((Mutex::new(false), std::sync::Condvar::new()));
+        let on_harness = Arc::new(std::sync::atomic::AtomicBool::new(false));
+        let dropped = Arc::new(std::sync::atomic::AtomicBool::new(false));
+        let q = QueuingMetricSink::from(NastyDrop { inner: GatedSink { sh: sh.clone() }, blocks: variant == 1, release: release.clone(), on_harness_thread: on_harness.clone(), dropped: dropped.clone() });
+        if !never_used {
+            let _ = q.emit(&metric_text(&format!("nasty{}", r.sid), &Out::Ok, 0));
+            let _ = await_log(&sh, |st| st.log.iter().any(|e| matches!(e, Ev::Exit { .. })));
+        }
+        let ctx = jobj! {"capacity" => "unbounded", "ops" => format!("drop of a {} queuing sink whose wrapped sink's destructor {}", if never_used { "never used" } else { "used" }, if variant == 1 { "blocks" } else { "panics" })};
+        let dr = in_call("drop", || ctx.clone(), || panics::guard(move || drop(q)));
+        // give the background thread the time to get to the destructor
+        let t0 = std::time::Instant::now();
+        while !dropped.load(std::sync::atomic::Ordering::SeqCst) && t0.elapsed().as_secs() < 20 {
+            std::thread::sleep(std::time::Duration::from_millis(2));
+        }
+        {
+            let mut rep = r.rep();
+            rep.eval();
+            rep.obs("drops_of_queuing_sinks_whose_wrapped_sink_has_a_hostile_destructor", 1);
+            rep.distinct(&format!("compose|nasty-drop|{}|{}", variant, never_used));
+            if r.prop == "C09" {
+                if let Err(p) = &dr {
+                    rep.violation(Violation { property: "C09".into(), rule: "R4".into(), class: "drop-panicked".into(), detail: format!("[{}] drop unwound into the caller: {}", ctx.to_string(), p), replay_args: r.args.to_vec_with(&[]), trace: Json::Null });
+                } else if on_harness.load(std::sync::atomic::Ordering::SeqCst) {
+                    rep.violation(Violation { property: "C09".into(), rule: "R4".into(), class: "sink-released-on-caller-thread".into(), detail: format!("[{}] the wrapped sink's destructor ran on the thread that dropped the handle (whatever it does there - wait, panic - happens to the caller)", ctx.to_string()), replay_args: r.args.to_vec_with(&[]), trace: Json::Null });
+                } else if !dropped.load(std::sync::atomic::Ordering::SeqCst) {
+                    rep.violation(Violation { property: "C09".into(), rule: "R4".into(), class: "worker-or-sink-not-released".into(), detail: format!("[{}] 20 s after the last drop the wrapped sink has not been dropped", ctx.to_string()), replay_args: r.args.to_vec_with(&[]), trace: Json::Null });
+                }
+            }
+        }
+        {
+            let (m, cv) = &*release;
+            *m.lock().unwrap() = true;
+            cv.notify_all();
+        }
+        let _ = await_no_library_thread();
+        set_current(None);
+    }
     // the queue's own thread as a caller of the SAME queue: the wrapped sink (or the error handler) emits follow-up
     // metrics through a clone of the queue it sits behind, more of them than the small bounded queue has room for. They
     // are answered by queue room like anybody's (the last one is refused), never run inline, and what was accepted is
